@@ -67,8 +67,9 @@ func init() {
 			if tier == "thorough" {
 				bound, hands = 3, 6
 			}
-			cfgs := histConfigs(tier, []int{3, 4}, []string{pt.CompetitionMode_CT, pt.CompetitionMode_MTT}, []pt.TableBlindState{blindStd(), blindAnte()}, hands)
+			cfgs := histConfigs(tier, []int{3, 4}, []string{pt.CompetitionMode_CT, pt.CompetitionMode_MTT}, []pt.TableBlindState{blindStd(), blindAnte(), {Level: 0, Ante: 0, Dealer: 0, SB: 1, BB: 2}}, hands)
 			for _, hc := range cfgs {
+				hc.retry = []string{"none", "blind-lower", "blind-break", "blind-raise"}
 				hc.between = []string{"none", "arrive", "rebuy", "leave-busted", "blind-raise", "blind-break", "blind-resume", "setup-again", "start-again", "pause", "close", "release"}
 				hc.mid = []string{"none", "arrive", "blind-break", "blind-raise"}
 				hc.late = []string{"none", "close", "release", "pause", "blind-break", "arrive", "leave-live"}
@@ -106,9 +107,10 @@ func init() {
 			if tier == "thorough" {
 				bound, hands = 4, 5
 			}
-			blinds := []pt.TableBlindState{blindStd(), blindAnte(), {Level: -1, Ante: 0, Dealer: 0, SB: 1, BB: 2}}
+			blinds := []pt.TableBlindState{blindStd(), blindAnte(), {Level: -1, Ante: 0, Dealer: 0, SB: 1, BB: 2}, {Level: 0, Ante: 0, Dealer: 0, SB: 1, BB: 2}}
 			cfgs := histConfigs(tier, []int{3, 4}, []string{pt.CompetitionMode_CT, pt.CompetitionMode_MTT}, blinds, hands)
 			for _, hc := range cfgs {
+				hc.retry = []string{"none", "blind-lower", "blind-break", "blind-ante"}
 				hc.between = []string{"none", "blind-raise", "blind-lower", "blind-ante", "blind-break", "blind-resume"}
 				hc.mid = []string{"none", "blind-raise", "blind-lower", "blind-ante", "blind-break"}
 				hc.late = []string{"none", "blind-raise", "blind-ante", "blind-break"}
